@@ -7,11 +7,11 @@ package engine
 import (
 	"bufio"
 	"bytes"
-	"io"
 	"crypto/sha256"
 	"encoding/hex"
 	"encoding/json"
 	"fmt"
+	"io"
 	"os"
 	"os/exec"
 	"path/filepath"
